@@ -175,6 +175,152 @@ def enumeration_exact_dynamic : Prop :=
       ∃ k ≤ calls, (sl, (j + 1) * DIRENTSZ) ∈ (page (ds k) (cookies k) lim1 lim2 inc1 inc2 n1 n2).2 ∧
         ∀ k' ≤ calls, k' ≠ k → (sl, (j + 1) * DIRENTSZ) ∉ (page (ds k') (cookies k') lim1 lim2 inc1 inc2 n1 n2).2
 
+theorem lastCookie_of_ne_nil (L : List (Slot × Nat)) (a b : Nat) (h : L ≠ []) :
+    lastCookie L a = lastCookie L b := by
+  unfold lastCookie
+  cases hl : L.getLast? with
+  | none => exact absurd (List.getLast?_eq_none_iff.mp hl) h
+  | some e => rfl
+
+theorem lastCookie_mem (L : List (Slot × Nat)) (d : Nat) (h : L ≠ []) :
+    ∃ e ∈ L, e.2 = lastCookie L d := by
+  unfold lastCookie
+  cases hl : L.getLast? with
+  | none => exact absurd (List.getLast?_eq_none_iff.mp hl) h
+  | some e => exact ⟨e, List.mem_of_getLast? hl, rfl⟩
+
+theorem le_lastCookie (L : List (Slot × Nat)) (d : Nat) (hs : L.Pairwise (fun x y => x.2 < y.2))
+    (e : Slot × Nat) (he : e ∈ L) : e.2 ≤ lastCookie L d := by
+  induction L with
+  | nil => cases he
+  | cons x rest ih =>
+    have hp := List.pairwise_cons.1 hs
+    unfold lastCookie
+    cases hr : rest with
+    | nil =>
+      subst hr
+      simp only [List.mem_singleton] at he
+      subst he
+      simp
+    | cons y ys =>
+      have hne : rest ≠ [] := by rw [hr]; simp
+      have hlast : (x :: rest).getLast? = rest.getLast? := by
+        rw [hr]; simp [List.getLast?_cons_cons]
+      rw [← hr, hlast]
+      rcases List.mem_cons.1 he with hx | hx
+      · -- x is below everything in rest, in particular below its last element
+        obtain ⟨l, hl, _⟩ := lastCookie_mem rest d hne
+        have := hp.1 l hl
+        unfold lastCookie at *
+        cases hg : rest.getLast? with
+        | none => exact absurd (List.getLast?_eq_none_iff.mp hg) hne
+        | some z =>
+          have hz : z ∈ rest := List.mem_of_getLast? hg
+          have := hp.1 z hz
+          rw [hx]; simp only; omega
+      · have := ih hp.2 hx
+        unfold lastCookie at this
+        exact this
+
+/-- a page that does not report end of directory is not empty -/
+theorem page_noneof_ne_nil (slots : List Slot) (cookie : Nat)
+    (h : (page slots cookie lim1 lim2 inc1 inc2 n1 n2).1 = false) :
+    (page slots cookie lim1 lim2 inc1 inc2 n1 n2).2 ≠ [] := by
+  obtain ⟨k, hk, _, hk3⟩ := pageGo_prefix cookie lim1 lim2 inc1 inc2 slots 0 n1 n2
+  unfold page at h ⊢
+  rw [hk]
+  exact take_ne_nil _ k (hk3 h).1 (hk3 h).2
+
+/-- ENUMERATION OF A DIRECTORY THAT CHANGES BETWEEN THE CALLS: whatever happens to the other
+    entries (created, removed, renamed — `ds k` is the slot list call `k` sees), with any budgets,
+    an entry that stays in its slot during the whole enumeration is returned exactly once. -/
+theorem enumeration_exact_dynamic_holds : enumeration_exact_dynamic lim1 lim2 inc1 inc2 n1 n2 := by
+  intro ds calls cookies h0 hnext hnoeof heof j sl hl hstable
+  -- per-call facts
+  have hstep : ∀ k, k < calls → cookies k < cookies (k + 1) ∧ ∃ m, cookies (k + 1) = m * DIRENTSZ := by
+    intro k hk
+    have hne := page_noneof_ne_nil lim1 lim2 inc1 inc2 n1 n2 (ds k) (cookies k) (hnoeof k hk)
+    obtain ⟨e, he, hel⟩ := lastCookie_mem _ (cookies k) hne
+    obtain ⟨i, _, _, h3, _, h5⟩ := (page_sound lim1 lim2 inc1 inc2 n1 n2 (ds k) (cookies k)).1 e he
+    rw [hnext k hk, ← hel]
+    exact ⟨h5, i + 1, h3⟩
+  have hmult : ∀ k, k ≤ calls → ∃ m, cookies k = m * DIRENTSZ := by
+    intro k hk
+    cases k with
+    | zero => exact ⟨0, by rw [h0]; simp⟩
+    | succ k => exact (hstep k (by omega)).2
+  have hmono : ∀ b, b ≤ calls → ∀ a, a ≤ b → cookies a ≤ cookies b := by
+    intro b
+    induction b with
+    | zero => intro _ a ha; have : a = 0 := by omega
+              rw [this]; exact Nat.le_refl _
+    | succ b ih =>
+      intro hb a ha
+      rcases Nat.lt_or_ge a (b + 1) with hlt | hge
+      · have := ih (by omega) a (by omega)
+        have := (hstep b (by omega)).1
+        omega
+      · have : a = b + 1 := by omega
+        rw [this]; exact Nat.le_refl _
+  have hck : (j + 1) * DIRENTSZ = j * DIRENTSZ + DIRENTSZ := by
+    rw [Nat.add_mul]; simp
+  have hD : 0 < DIRENTSZ := by decide
+  -- the call in whose range the slot falls
+  have hfind : ∀ d n, calls - n = d → n ≤ calls → cookies n ≤ j * DIRENTSZ →
+      ∃ k, k ≤ calls ∧ cookies k ≤ j * DIRENTSZ ∧ (k = calls ∨ (k < calls ∧ (j + 1) * DIRENTSZ ≤ cookies (k + 1))) := by
+    intro d
+    induction d with
+    | zero => intro n hd hn hc; exact ⟨n, hn, hc, Or.inl (by omega)⟩
+    | succ d ih =>
+      intro n hd hn hc
+      have hlt : n < calls := by omega
+      rcases Nat.lt_or_ge (cookies (n + 1)) ((j + 1) * DIRENTSZ) with hsmall | hbig
+      · obtain ⟨m, hm⟩ := (hstep n hlt).2
+        have hle : cookies (n + 1) ≤ j * DIRENTSZ := by
+          rw [hm] at hsmall ⊢
+          have : m < j + 1 := Nat.lt_of_mul_lt_mul_right hsmall
+          exact Nat.mul_le_mul_right _ (by omega)
+        exact ih (n + 1) (by omega) (by omega) hle
+      · exact ⟨n, hn, hc, Or.inr ⟨hlt, hbig⟩⟩
+  obtain ⟨k, hk, hkc, hkr⟩ := hfind (calls - 0) 0 rfl (Nat.zero_le _) (by rw [h0]; exact Nat.zero_le _)
+  -- membership in a page pins the call down
+  have hpin : ∀ k', k' ≤ calls →
+      (sl, (j + 1) * DIRENTSZ) ∈ (page (ds k') (cookies k') lim1 lim2 inc1 inc2 n1 n2).2 →
+      cookies k' ≤ j * DIRENTSZ ∧ (k' < calls → (j + 1) * DIRENTSZ ≤ cookies (k' + 1)) := by
+    intro k' hk' hmem
+    obtain ⟨hs1, hs2⟩ := page_sound lim1 lim2 inc1 inc2 n1 n2 (ds k') (cookies k')
+    obtain ⟨i, _, _, h3, h4, _⟩ := hs1 _ hmem
+    simp only at h3
+    have hij : i = j := by
+      have : j + 1 = i + 1 := Nat.eq_of_mul_eq_mul_right hD h3
+      omega
+    rw [hij] at h4
+    refine ⟨h4, ?_⟩
+    intro hlt
+    rw [hnext k' hlt]
+    exact le_lastCookie _ _ hs2 _ hmem
+  refine ⟨k, hk, ?_, ?_⟩
+  · rcases hkr with hkeq | ⟨hklt, hbig⟩
+    · rw [hkeq]
+      exact page_eof_complete lim1 lim2 inc1 inc2 n1 n2 (ds calls) (cookies calls) heof j sl
+        (hstable calls (Nat.le_refl _)) hl (by rw [← hkeq]; exact hkc)
+    · refine page_no_gap lim1 lim2 inc1 inc2 n1 n2 (ds k) (cookies k) j sl (hstable k hk) hl hkc ?_
+      have hne := page_noneof_ne_nil lim1 lim2 inc1 inc2 n1 n2 (ds k) (cookies k) (hnoeof k hklt)
+      rw [lastCookie_of_ne_nil _ 0 (cookies k) hne, ← hnext k hklt]
+      exact hbig
+  · intro k' hk' hne hmem
+    obtain ⟨p1, p2⟩ := hpin k' hk' hmem
+    rcases Nat.lt_or_ge k' k with hlt | hge
+    · -- k' is earlier: its range ends at or before the cookie of call k
+      have h1 := p2 (by omega)
+      have h2 := hmono k hk (k' + 1) (by omega)
+      omega
+    · have hgt : k < k' := by omega
+      rcases hkr with hkeq | ⟨hklt, hbig⟩
+      · omega
+      · have h2 := hmono k' hk' (k + 1) (by omega)
+        omega
+
 /-- Non-vacuity and the shape of the repaired defect: with a budget that admits one entry per
     call, a directory with `.`, `..`, a free slot and two files is listed in four calls. -/
 example :
